@@ -1,6 +1,6 @@
 (* C07 - Norm, inner product, sums and bilinear forms equal their dense values. *)
 From Coq Require Import List Arith.
-From TT Require Import RingSig SumN Mat Dense Core Arith MatOps Reduce CoreP ArithP MatOpsP ReduceP.
+From TT Require Import RingSig SumN Mat Dense Core Arith MatOps Reduce CoreP ArithP MatOpsP ReduceP ReduceDimsP SumModesP BilinearP.
 Import ListNotations.
 
 Section C07.
@@ -34,6 +34,34 @@ Theorem C07_sum_all_ttm (x : ttm R) : wf4 x ->
   sum_all4 x = sum_idx (shapeM x) (fun is_ => sum_idx (shapeN x) (fun js => entry4 x is_ js)).
 Proof. exact (sum_all4_spec x). Qed.
 
+(* x.sum(index) with at least one mode left: the keep-dim core sums followed by reduce_dims(exclude = the other modes) hold, at
+   every position of the remaining modes, the dense sum over the listed modes (first, last, adjacent, scattered subsets alike) *)
+Theorem C07_sum_modes_full (x : tt R) index idx' :
+  (0 < length (keep_pos 0 (shape x) index))%nat -> length idx' = length (keep_pos 0 (shape x) index) ->
+  entry (sum_modes x index) idx' = dsum_rec 0 (shape x) index (entry x) idx'.
+Proof. exact (sum_modes_full x index idx'). Qed.
+
+(* dot(a, b, axis): contraction of the listed modes of a with conj(b) *)
+Theorem C07_dot_axis_full (a b : tt R) axis idx' :
+  wf a -> wf b -> length b = length (take_pos 0 (shape a) axis) ->
+  (0 < length (keep_pos 0 (shape a) axis))%nat -> length idx' = length (keep_pos 0 (shape a) axis) ->
+  entry (dot_axis a b axis) idx' =
+    dsum_rec 0 (shape a) axis (fun idx => entry a idx * rconj (entry b (take_pos 0 idx axis))) idx'.
+Proof. exact (dot_axis_full a b axis idx'). Qed.
+
+(* bilinear_form(x, A, y) = sum_{i,j} conj(x_i) A_ij y_j, rectangular modes included *)
+Theorem C07_bilinear_full (x : tt R) (A : ttm R) (y : tt R) :
+  wf x -> wf4 A -> wf y -> length A = length x -> length y = length x ->
+  bilinear_form x A y =
+  sum_idx (shapeM A) (fun is_ => sum_idx (shapeN A) (fun js => rconj (entry x is_) * entry4 A is_ js * entry y js)).
+Proof. exact (bilinear_full x A y). Qed.
+
+(* reduce_dims(exclude) preserves the value on the surviving modes *)
+Theorem C07_reduce_dims_full (x : tt R) excl idx' :
+  (0 < nkept 0 x excl)%nat -> length idx' = nkept 0 x excl ->
+  entry (reduce_dims x excl) idx' = entry x (fullidx 0 x excl idx').
+Proof. exact (reduce_dims_full x excl idx'). Qed.
+
 End C07.
 Print Assumptions C07_dot_full.
 Print Assumptions C07_norm2.
@@ -41,3 +69,7 @@ Print Assumptions C07_norm2_ttm.
 Print Assumptions C07_dot_loop.
 Print Assumptions C07_sum_all.
 Print Assumptions C07_sum_all_ttm.
+Print Assumptions C07_sum_modes_full.
+Print Assumptions C07_dot_axis_full.
+Print Assumptions C07_bilinear_full.
+Print Assumptions C07_reduce_dims_full.
